@@ -583,7 +583,7 @@ def dist_key(case):
 
 
 def run(ctx, out, replay=None):
-    n = 500 if ctx.quick() else 4000
+    n = 500 if ctx.quick() else 7000
     out.rule = ("full grids of 1x1 .. 5x5 cells on strictly increasing dyadic coordinate lists (unit, integer "
                 "non-uniform, fractional extent, shifted integer / fractional / negative origin, independently per "
                 "axis), cells listed row-major, column-major or shuffled, k 1..3, occupancies in quarters, factor "
